@@ -92,6 +92,30 @@ def sponge(db, rep):
            not any(x.startswith('call:') for x in c), f'counter := counter + 1: written leaves {sorted(c)}', fn.loc(), cfg)
     rep.ob('C08.sponge', 'squeeze/digest-untouched', 'a1.digest' not in fl.pw and 'a1' not in fl.pw,
            f'the squeeze must not modify the digest (writes: {sorted(fl.pw)})', fn.loc(), cfg)
+    # the batch squeeze must be n single squeezes: it delegates in every iteration and touches no state itself;
+    # only the three primitives may call Poseidon
+    import cfg as _cfg
+    fnN = db.fn(T_SQUEEZE_N, 'C08.sponge')
+    okN = False
+    for latch, header in fnN.backedges:
+        blocks = {bi for bi in dataflow.natural_loop(fnN, latch, header) if bi in _cfg.blocks_calling(fnN, db, {T_SQUEEZE})}
+        if blocks and _cfg.must_pass_through(fnN, blocks, 'iteration', (latch, header)) is None:
+            okN = True
+    rep.ob('C08.sponge', 'batch-squeeze/delegates', okN, 'random_felts_to_prover calls random_felt_to_prover in every iteration of its loop', fnN.loc(), cfg)
+    own_w = set()
+    for b in fnN.blocks:
+        for s_ in b['stmts']:
+            if s_['k'] == 'assign' and any(isinstance(e, dict) and e.get('adt') == TRANSCRIPT for e in s_['place']['p']):
+                own_w.add(s_['line'])
+            if s_['k'] == 'assign' and s_['rv']['k'] == 'ref' and s_['rv'].get('mut') and any(isinstance(e, dict) and e.get('adt') == TRANSCRIPT for e in s_['rv']['place']['p']):
+                own_w.add(s_['line'])
+    rep.ob('C08.sponge', 'batch-squeeze/no-own-state', not own_w, f'random_felts_to_prover must not write digest/counter itself (writes at lines {sorted(own_w)})', fnN.loc(), cfg)
+    callers = sorted(p for p, f in db.fns.items() if p.startswith(TRANSCRIPT + '::') and f.has_mir and
+                     any((t['f'].get('resolved') or '').startswith('starknet_crypto::poseidon_hash') for _, t in f.calls()))
+    prim = sorted([T_SQUEEZE, T_ABSORB1, T_ABSORBV])
+    rep.ob('C08.sponge', 'poseidon-only-in-primitives', callers == prim,
+           f'Transcript methods calling Poseidon: {[c.split("::")[-1] for c in callers]} (expected exactly the three primitives)',
+           'crates/transcript/src/transcript.rs', cfg)
     # who-may-write / who-may-construct
     writers, makers = set(), set()
     n_fns = 0
